@@ -463,7 +463,7 @@ impl Prop for P {
             },
             Tier::Thorough => Plan {
                 workers: 16,
-                cases_per_worker: 250000,
+                cases_per_worker: 600000,
                 timeout_s: 14400,
                 max_shrink_iters: 2000,
             },
